@@ -49,4 +49,34 @@ for c in cfg.get("sums", []):
     except Exception as ex:
         c.update({"axes": norm, "sum": [], "vjp": [], "jvp": [], "g0": [], "ok": False, "error": repr(ex)})
     out["sums"].append(c)
+# ---- dot / matmul / @ on matrices and vectors (1-D operands are a row / a column) ----
+out["mms"] = []
+for c in cfg.get("mms", []):
+    A = onp.array(c["A"], float)
+    B = onp.array(c["B"], float)
+    fn = {"dot": anp.dot, "matmul": anp.matmul, "op@": (lambda a, b: a @ b)}[c["fn"]]
+    try:
+        y = onp.dot(A, B)
+        G = onp.array(c["g"][:y.size], float).reshape(y.shape)
+        vA = onp.asarray(make_vjp(lambda z: fn(z, B))(A)[0](G))
+        vB = onp.asarray(make_vjp(lambda z: fn(A, z))(B)[0](G))
+        jv = onp.asarray(make_jvp(lambda z: fn(z, B))(A)(vA)[1])
+        ok = vA.shape == A.shape and vB.shape == B.shape and onp.shape(jv) == y.shape
+        for idx in onp.ndindex(*A.shape):
+            d = onp.zeros(A.shape)
+            d[idx] = 1.0
+            ok = ok and float(onp.sum(G * onp.dot(d, B))) == float(onp.sum(vA * d))
+        for idx in onp.ndindex(*B.shape):
+            d = onp.zeros(B.shape)
+            d[idx] = 1.0
+            ok = ok and float(onp.sum(G * onp.dot(A, d))) == float(onp.sum(vB * d))
+        m, n = (1, A.shape[0]) if A.ndim == 1 else A.shape
+        p = 1 if B.ndim == 1 else B.shape[1]
+        as2 = lambda M, r, q: [[int(t) for t in row] for row in onp.asarray(M, float).reshape(r, q)]  # noqa: E731
+        c.update({"m": m, "n": n, "p": p, "A2": as2(A, m, n), "B2": as2(B, n, p), "G2": as2(G, m, p), "dot": as2(y, m, p),
+                  "vjpA": as2(vA, m, n), "vjpB": as2(vB, n, p), "jvp": as2(jv, m, p), "ok": bool(ok)})
+    except Exception as ex:
+        c.update({"m": 0, "n": 0, "p": 0, "A2": [], "B2": [], "G2": [], "dot": [], "vjpA": [], "vjpB": [], "jvp": [], "ok": False,
+                  "error": repr(ex)})
+    out["mms"].append(c)
 print(json.dumps(out))
